@@ -378,7 +378,7 @@ Definition ext_is_x (k : extk) : bool := match k with XUXTX | XSXTX => true | _ 
 Definition extended_reg (sf : bool) (rm : Z) (k : extk) (a : Z) (sp_involved : bool) : opnd :=
   let r := xreg_zr (sf && ext_is_x k) rm in
   let lsl_pref := sp_involved && (match k with XUXTX => sf | XUXTW => negb sf | _ => false end) in
-  if lsl_pref then (if a =? 0 then OReg r else OShiftReg r (BLSL a))
+  if lsl_pref then (if (a =? 0) && sf then OReg r else OShiftReg r (BLSL a))   (* the 32-bit form keeps `#0` *)
   else OShiftReg r (bext_of k a).
 
 Definition ldst_mnem (size opc : Z) : mnem :=
